@@ -35,6 +35,8 @@ fn item_alphabet() -> Vec<(&'static str, Option<&'static str>)> {
         ("async fn private_async(deps: &impl Any) {}", None),
         ("unsafe extern \"C\" fn private_unsafe() {}", None),
         ("const N2: usize = { 1 } + 2;", None),
+        ("fn helper<I: Iterator<Item = u32>>(i: I) -> u32 { i.sum() }", None),
+        ("pub struct Frame<T = u32> { pub t: T }", None),
         ("pub trait T2 { fn in_trait(&self); }", None),
     ]
 }
@@ -45,7 +47,7 @@ fn fn_names(items: &[syn::Item]) -> Vec<String> {
 
 fn c02(ctx: &Ctx, r: &mut Report) {
     let max = if ctx.tier == Tier::Thorough { 4 } else { 2 };
-    r.domain = "fn inputs (attributes, qualifiers, bodies with nested groups / macros / unparsable-by-syn tokens); module and impl-block bodies over an alphabet of 23 items (visible fns with every qualifier combination, private fn, struct, const with closure, use, impl, macro_rules, nested mod, extern block, static, type alias, trait, item ending in `};`)".into();
+    r.domain = "fn inputs (attributes, qualifiers, bodies with nested groups / macros / unparsable-by-syn tokens); module and impl-block bodies over an alphabet of 25 items (visible fns with every qualifier combination, private fn, struct, const with closure, use, impl, macro_rules, nested mod, extern block, static, type alias, trait, item ending in `};`)".into();
     r.bound = format!("module bodies of length 0..{} (all sequences), plus every single item; 16 fn inputs", max);
     // --- fn inputs: output starts with the input tokens, unchanged
     let fns = [
@@ -196,7 +198,7 @@ fn c02(ctx: &Ctx, r: &mut Report) {
         let text: Vec<&str> = body
             .iter()
             .map(|i| alpha[*i].0)
-            .filter(|t| !(t.contains("mod inner") || t.contains("struct S") || t.contains("use std") || t.contains("impl S") || t.contains("extern \"C\" {") || t.contains("static") || t.contains("trait T2") || t.contains("macro_rules") || t.contains("private_")))
+            .filter(|t| !(t.contains("mod inner") || t.contains("struct S") || t.contains("use std") || t.contains("impl S") || t.contains("extern \"C\" {") || t.contains("static") || t.contains("trait T2") || t.contains("macro_rules") || t.contains("private_") || t.contains("fn helper") || t.contains("struct Frame")))
             .collect();
         let item = format!("impl TrImpl for X {{ {} }}", text.join(" ").replace("&impl Any", "&D").replace("fn a(", "fn a<D>(").replace("fn b(", "fn b<D>(").replace("fn c(", "fn c<D>(").replace("fn d(", "fn d<D>(").replace("fn e(", "fn e<D>(").replace("fn f(", "fn f<D>(").replace("fn g(", "fn g<D>(").replace("fn private(", "fn private<D>("));
         let input = format!("#[entrait] {}", item);
@@ -233,7 +235,7 @@ fn c02(ctx: &Ctx, r: &mut Report) {
 
 fn c08(ctx: &Ctx, r: &mut Report) {
     let max = if ctx.tier == Tier::Thorough { 4 } else { 3 };
-    r.domain = "module bodies over the 23-item alphabet of c02 (visible fns with every qualifier combination, private fns, body-less and nested fns, items containing `fn` tokens)".into();
+    r.domain = "module bodies over the 25-item alphabet of c02 (visible fns with every qualifier combination, private fns, body-less and nested fns, items containing `fn` tokens)".into();
     r.bound = format!("all sequences without repetition of length 0..{}", max);
     let alpha = item_alphabet();
     let mut bodies: Vec<Vec<usize>> = vec![];
@@ -282,7 +284,7 @@ fn c08(ctx: &Ctx, r: &mut Report) {
 fn c15(_ctx: &Ctx, r: &mut Report) {
     r.domain = "documented misuses with their messages; unsupported items (struct, enum, const, use, extern block, macro, empty); malformed option lists; parameter patterns in fn and trait-method signatures {ident, mut, ref, _, tuple, struct, slice, reference, nested, or-less}; every Ok output must re-parse as items".into();
     r.bound = "fixed catalogue (listed in the contract source), exhaustive".into();
-    let misuse: [(&str, &str, &str); 12] = [
+    let misuse: [(&str, &str, &str); 15] = [
         ("Tr", "fn f() {}", "Function must have a dependency 'receiver' as its first parameter"),
         ("Tr", "fn f(&self) {}", "Function cannot have a self receiver"),
         ("Tr", "fn f(self, a: i32) {}", "Function cannot have a self receiver"),
@@ -295,6 +297,9 @@ fn c15(_ctx: &Ctx, r: &mut Report) {
         ("Tr, delegate_by = ref", "fn f(deps: &impl Any) {}", "Unsupported option"),
         ("delegate_by = DelegateTr", "trait Tr { fn f(&self); }", "Cannot use a custom delegating trait without a custom trait to delegate to"),
         ("TrImpl", "trait Tr { fn f(&self); }", "Missing delegate_by"),
+        ("TrImpl, delegate_by = Self", "trait Tr { fn f(&self); }", "Missing delegate_by"),
+        ("TrImpl, delegate_by", "trait Tr { fn f(&self); }", "Missing delegate_by"),
+        ("pub TrImpl, mockall", "trait Tr { fn f(&self); }", "Missing delegate_by"),
     ];
     for (attr, item, needle) in misuse {
         let input = format!("#[entrait({})] {}", attr, item);
@@ -306,6 +311,49 @@ fn c15(_ctx: &Ctx, r: &mut Report) {
                 None => r.fail("no-diagnostic", &input, format!("expected the diagnostic `{}` but the expansion succeeded", needle)),
             }
         });
+    }
+    // valid inputs that exercise the shared generics analyzer across several functions: no panic, no diagnostic
+    for deps in ["&impl Any", "&App0", "&D"] {
+        for w1 in ["where T: Clone", "where T: Clone,", "where T: Clone, T: Send", ""] {
+            for w2 in ["where U: ToString", "where U: ToString,", ""] {
+                for mode in ["mod", "impl", "impl-ref"] {
+                    let g = |t: &str| if deps == "&D" { format!("<D, {}>", t) } else { format!("<{}>", t) };
+                    let fns = format!("pub fn first{}(deps: {}, t: T) {} {{}} pub fn second{}(deps: {}, u: U) {} {{}} pub fn third{}(deps: {}, t: T) where T: Copy {{}}", g("T"), deps, w1, g("U"), deps, w2, g("T"), deps);
+                    let (attr, item) = match mode {
+                        "mod" => ("Tr", format!("mod m {{ {} }}", fns)),
+                        "impl" => ("", format!("impl TrImpl for X {{ {} }}", fns)),
+                        _ => ("ref", format!("impl TrImpl for X {{ {} }}", fns)),
+                    };
+                    if deps == "&App0" {
+                        continue; // concrete deps are rejected in modules and impl blocks (covered above)
+                    }
+                    let input = format!("#[entrait({})] {}", attr, item);
+                    r.guarded(&input, |r| {
+                        let out = expand(Variant::Entrait, attr, &item);
+                        match compile_error_of(&out) {
+                            Some(e) => r.fail("valid-input-rejected", &input, format!("valid input was rejected: {}", e)),
+                            None => {
+                                if let Err(e) = parse_file(&out) {
+                                    r.fail("unparsable-output", &input, e);
+                                }
+                            }
+                        }
+                    });
+                }
+            }
+        }
+    }
+    for w in ["where T: Clone", "where T: Clone,", "where T: Clone, U: Send"] {
+        for opts in ["Tr", "Tr, no_deps"] {
+            let item = format!("fn f<T, U>({}t: T, u: U) {} {{}}", if opts.contains("no_deps") { "" } else { "deps: &App0, " }, w);
+            let input = format!("#[entrait({})] {}", opts, item);
+            r.guarded(&input, |r| {
+                let out = expand(Variant::Entrait, opts, &item);
+                if let Some(e) = compile_error_of(&out) {
+                    r.fail("valid-input-rejected", &input, format!("valid input was rejected: {}", e));
+                }
+            });
+        }
     }
     // anything goes, as long as it is a diagnostic or parsable output - never a panic
     let odd_items = [
